@@ -20,7 +20,11 @@ from mc.vlog.lexer import VlogError, ParseError
 LEVEL = 'exploration'
 RULE = ('every Verilog text produced for: the design catalogue of C01 (all placements), every pair of catalogue blocks whose '
         'top block maps to the same module name (built side by side), and the exhaustive naming grid (port names x local wire '
-        'name x instance name x top-level wire names from a list with reserved words, prefixes w_/i_, clk, r, q); each text is '
+        'name x instance name x top-level wire names from a list with reserved words, prefixes w_/i_, clk, r, q), a sample of the '
+        'behavioural classes generated for C02, and family hist: the five circuits of C19 (shared named modules, counter, transpiled '
+        'FSM, own clock domain, several transpiled classes) after every history of <= H requests / simulation steps / one structural '
+        'edit (which gives a combinational block its first register), hierarchy text from the generator that served the history and '
+        'from a fresh one; each text is '
         'parsed + elaborated; rules R1 parse, R2 declared exactly once, R3 no reserved word, R4 modules defined once, R5 ports/'
         'parameters exist with equal widths, R6 exactly one driver of the right kind, R7 legal parameters/replications, R8 same '
         'module name => same port list. non-trivial = text with at least one module instance or procedural block')
@@ -28,8 +32,8 @@ ASSUMPTIONS = ['Verilog-2005 front end in mc/vlog is the judge of legality (its 
                'distinct port names within one Logic and distinct child names are the user\'s responsibility (py4hw enforces the latter)',
                'top-level wires poked by the harness are external drivers',
                'generation that raises is a refusal (counted), not a violation']
-BOUNDS = {'quick': 'catalogue at quick grids, naming grid over 6 names (4320 wrappers + 120 top-level namings)',
-          'thorough': 'catalogue at thorough grids, naming grid over 10 names (72000 wrappers + 720 top-level namings)'}
+BOUNDS = {'quick': 'catalogue at quick grids, naming grid over 6 names (4320 wrappers + 120 top-level namings), hist H = 2 (365 histories)',
+          'thorough': 'catalogue at thorough grids, naming grid over 10 names (72000 wrappers + 720 top-level namings), hist H = 3 (2925 histories)'}
 
 NAMES_T = ['a', 'w_a', 'i_a', 'reg', 'wire', 'output', 'signed', 'clk', 'r', 'q']
 NAMES_Q = ['a', 'w_a', 'i_a', 'reg', 'clk', 'q']
@@ -115,9 +119,50 @@ def items(tier):
     return out
 
 
+HIST_OPS = ['G1r', 'G2', 'G3', 'G4', 'L', 'P', 'S', 'M']
+HIST_KINDS = ['comb', 'seq', 'fsm', 'multiclk', 'beh']
+
+
+def hist_space(tier):
+    """(circuit of C19, request/simulation/edit history): the text of a hierarchy request made AFTER the history - on the
+    generator that served the history and on a fresh one - is linted like any other text"""
+    H = 3 if tier == 'thorough' else 2
+    return [(k, list(h)) for k in HIST_KINDS for n in range(H + 1) for h in itertools.product(HIST_OPS, repeat=n)]
+
+
+def hist_texts(kind, hist):
+    from mc.props import c19
+    with core.quiet():
+        c = c19.build(kind)
+        for op in hist:
+            if op == 'S':
+                for w, v in zip(c.free, c19.INPUTS[c.step % len(c19.INPUTS)]):
+                    w.put(v)
+                c.sim.clk(1)
+                c.step += 1
+            elif op == 'M':
+                if not c.edited:
+                    c.edit()
+                    c.edited = True
+                    c.sim = c.sys.getSimulator()
+            else:
+                try:
+                    c19.request(c, op, None)
+                except Exception:
+                    pass
+        ext = ['w_' + w.name for w in c.free]
+        texts = []
+        for g in (c.gen, py4hw.VerilogGenerator(c.sys)):
+            try:
+                texts.append(g.getVerilogForHierarchy())
+            except Exception:
+                texts.append(None)
+    return texts, ext
+
+
 def shards(tier):
     counts = {'cat': len(c01._designs(tier)), 'twin': len(twin_pairs(tier)), 'name': len(naming_space(tier)),
-              'gen': len(gen_programs(tier)[1])}
+              'gen': len(gen_programs(tier)[1]), 'hist': len(hist_space(tier))}
     out = []
     for fam, n in counts.items():
         ch = CHUNK * (8 if fam == 'name' else 1)
@@ -207,6 +252,16 @@ def run_shard(d):
 def _run_items(d, res, tier, fam, gm):
     for i in range(d['lo'], d['hi']):
         desc = {'family': fam, 'index': i, 'tier': tier}
+        if fam == 'hist':
+            kind, hist = hist_space(tier)[i]
+            desc['design'] = 'C19 circuit %s after %s' % (kind, ' '.join(hist) or '(nothing)')
+            texts, ext = hist_texts(kind, hist)
+            for which, text in zip(('reused', 'fresh'), texts):
+                if text is None:
+                    res['refused'] += 1
+                else:
+                    check_text(text, ext, fam, 'hist:%s:%s' % (kind, which), res, desc)
+            continue
         try:
             if fam == 'cat':
                 s, c, p = c01._designs(tier)[i]
@@ -310,10 +365,16 @@ def replay(v):
         gm = c02.GenModule([p], 'c03replay')
         sys_, ins, outs, dut = c02.build_gen(gm.cls(0), p)
         ext = ['w_a', 'w_b']
+    elif fam == 'hist':
+        kind, hist = hist_space(tier)[i]
+        texts, ext = hist_texts(kind, hist)
+        which = 0 if ':reused:' in v['sig'] else 1
+        text = texts[which]
     else:
         sys_, ext = build_naming(naming_space(tier)[i])
-    text = c01.generate(sys_)
-    out = {'design': d.get('design'), 'text': text}
+    if fam != 'hist':
+        text = c01.generate(sys_)
+    out = {'design': d.get('design'), 'text': HEX.sub('_ID', text)}
     try:
         dsg = V.elaborate(text, external=ext)
         out['issues'] = [list(x) for x in dsg.issues]
